@@ -346,7 +346,7 @@ class Fn:
 
 
 class Mir:
-    def __init__(self, facts_dir, crates):
+    def __init__(self, facts_dir, crates, renames=None):
         self.dir = facts_dir
         self.fns = {}  # id -> Fn
         self.by_crate = defaultdict(list)
@@ -354,7 +354,11 @@ class Mir:
         self.impls = []
         self.statics = []
         for c in crates:
-            d = json.load(open(os.path.join(facts_dir, c + ".mir.json")))
+            if renames and c in renames:
+                from . import renames as _rn
+                d = json.loads(_rn.apply_mir_text(open(os.path.join(facts_dir, c + ".mir.json")).read(), *renames[c]))
+            else:
+                d = json.load(open(os.path.join(facts_dir, c + ".mir.json")))
             for f in d["fns"]:
                 fn = Fn(c, f)
                 self.fns[fn.id] = fn
